@@ -81,7 +81,7 @@ Den(psi, a, x, y) == LET N == Px(psi, x, y) * Px(psi, x, y) + Py(psi, x, y) * Py
 FluxMaps == {<<0, 1, 0, 0, 0, 0>>, <<0, 1, 2, 0, 0, 0>>,                    \* linear flux maps
              <<0, 1, 0, 1, 1, 2>>, <<0, 0, 0, 1, 0, 1>>, <<3, 2, 1, 1, 0, -1>>}   \* curved (quadratic) flux maps
 AdmtCases == {[kind |-> "admt", order |-> o, g |-> g, psi |-> psi, p |-> f, a |-> a, ix |-> ix, iy |-> iy] :
-                o \in {"columns_down", "rows"}, g \in {gg \in Grids : gg.nx >= 3 /\ gg.ny >= 3 /\ gg.dx = 1 /\ gg.dy = 1 /\ gg.x0 = 1},
+                o \in {"columns_down", "rows"}, g \in {gg \in Grids : gg.nx >= 3 /\ gg.ny >= 3 /\ <<gg.dx, gg.dy>> \in {<<1, 1>>, <<2, 3>>, <<2, 1>>} /\ gg.x0 = 1},      \* square and non-square voxels
                 psi \in FluxMaps, f \in {<<3, 0, 0, 0, 0, 0>>, <<4, -1, 2, 0, 0, 0>>, <<2, -1, 0, 1, 1, -1>>, <<0, 1, 1, 0, 0, 2>>},
                 a \in {1, 2, 10}, ix \in 1..(IF Deep THEN 4 ELSE 2), iy \in 1..(IF Deep THEN 4 ELSE 2)}
 
